@@ -53,6 +53,39 @@ Theorem C10_total_time : forall c ops,
   last_pass last0 (grants_c c last0 ops) - last0 >= sum_iv (interval c) (grants_c c last0 ops).
 Proof. intros c ops. apply (spaced_total (early_block c)). exact (proj1 (spacing (early_block c) (interval c) (maxq_ns c) last0 ops)). Qed.
 
+(* RATE OVER ANY WINDOW of the history (not only the whole of it): a contiguous run `mid` of
+   admitted requests that follows an admitted request g needs at least the sum of its
+   intervals, counted from g's pass time; with a uniform batch b that is
+   length(mid) * interval(b) - the admitted rate never exceeds the threshold on any stretch *)
+Theorem C10_window_total : forall c ops pre g mid post,
+  grants_c c last0 ops = pre ++ g :: mid ++ post ->
+  last_pass (g_pass g) mid - g_pass g >= sum_iv (interval c) mid.
+Proof.
+  intros c ops pre g mid post He.
+  pose proof (proj1 (spacing (early_block c) (interval c) (maxq_ns c) last0 ops)) as Hs.
+  unfold grants_c in He. rewrite He in Hs. exact (spaced_window (early_block c) (interval c) (maxq_ns c) last0 pre g mid post Hs).
+Qed.
+
+Theorem C10_window_rate : forall c ops pre g mid post b,
+  grants_c c last0 ops = pre ++ g :: mid ++ post ->
+  Forall (fun h => g_b h = b) mid ->
+  interval c b * Z.of_nat (length mid) <= last_pass (g_pass g) mid - g_pass g.
+Proof.
+  intros c ops pre g mid post b He Hf.
+  apply (window_count (early_block c) (interval c) (maxq_ns c) (interval c b) last0 ops pre g mid post He).
+  eapply Forall_impl; [|exact Hf]. cbn beta. intros h ->. lia.
+Qed.
+
+Example C10_window_nonvacuous :
+  let c := mk_cfg 2%float 600 0 in
+  let t := 1700000000000000000 in
+  let ops := [(t, 1); (t, 1); (t + 400000000, 1); (t + 5000000000, 1)] in
+  (* four grants g0..g3: pre = [g0], g = g1, mid = [g2], post = [g3]; the window [g2] spans
+     exactly one interval after g1 *)
+  map g_pass (grants_c c last0 ops) = [t; t + 500000000; t + 1000000000; t + 5000000000] /\
+  map g_b (grants_c c last0 ops) = [1; 1; 1; 1] /\ interval c 1 = 500000000.
+Proof. vm_compute. repeat split; congruence. Qed.
+
 (* a batch of 0 is passed without touching the state *)
 Theorem C10_zero_batch_inert : forall c last now b, b <= 0 -> do_check_c c last now b = (last, OZero).
 Proof. intros c last now b. exact (zero_inert (early_block c) (interval c) (maxq_ns c) last now b). Qed.
@@ -206,6 +239,8 @@ Print Assumptions C10_reject_only_if_needed.
 Print Assumptions C10_no_banking.
 Print Assumptions C10_idle_immediate.
 Print Assumptions C10_total_time.
+Print Assumptions C10_window_total.
+Print Assumptions C10_window_rate.
 Print Assumptions C10_zero_batch_inert.
 Print Assumptions C10_conc_spacing.
 Print Assumptions C10_conc_wait_bound.
